@@ -94,13 +94,26 @@ fn symbol_to_document_symbol(symbol_map: &SymbolMap, symbol: Symbol) -> Option<D
                 children: def_list.collect(),
             })
         }
-        Symbol::Multiclass(multiclass) => Some(DocumentSymbol {
-            name: multiclass.name.clone(),
-            typ: "multiclass".into(),
-            range: multiclass.define_loc.range,
-            kind: DocumentSymbolKind::Multiclass,
-            children: vec![],
-        }),
+        Symbol::Multiclass(multiclass) => {
+            let template_argument_list = multiclass
+                .iter_template_arg()
+                .map(|id| symbol_map.template_arg(id))
+                .map(|arg| DocumentSymbol {
+                    name: arg.name.clone(),
+                    typ: arg.typ.to_string().into(),
+                    range: arg.define_loc.range,
+                    kind: DocumentSymbolKind::TemplateArgument,
+                    children: Vec::new(),
+                });
+
+            Some(DocumentSymbol {
+                name: multiclass.name.clone(),
+                typ: "multiclass".into(),
+                range: multiclass.define_loc.range,
+                kind: DocumentSymbolKind::Multiclass,
+                children: template_argument_list.collect(),
+            })
+        }
         _ => None,
     }
 }
